@@ -644,21 +644,29 @@ pub fn run_seq(ops: &[Op], full_every_step: bool) -> (Option<Fail>, SeqObs) {
 }
 
 /// `n_names`: how many of NAMES the lookups-by-name sweep covers (4 = the property's alphabet).
-pub fn run_seq_names(ops: &[Op], full_every_step: bool, n_names: usize) -> (Option<Fail>, SeqObs) {
-    let kb = KnowledgeBase::new("c15");
-    let mut o = SeqObs::default();
-    let mut v_before = kb.version();
-    let mut m = Model::new(v_before);
-    for (i, op) in ops.iter().enumerate() {
-        let tag = i as u32 + 1;
-        let was_dup = matches!(op, Op::Add { n, .. } if m.find(*n).is_some());
-        let missing = matches!(op, Op::Remove { n } | Op::Enable { n, .. } if m.find(*n).is_none());
-        let res = exec(&kb, *op, tag);
+/// One knowledge base with its model (the body of the sequential step monitor).
+pub struct Inst {
+    pub kb: KnowledgeBase,
+    pub m: Model,
+    v_before: u64,
+}
+
+impl Inst {
+    pub fn new(kb: KnowledgeBase) -> Inst {
+        let v = kb.version();
+        Inst { kb, m: Model::new(v), v_before: v }
+    }
+    /// Execute step `i` (of `n_ops`) and compare; `full` = compare every view afterwards.
+    #[allow(clippy::too_many_arguments)]
+    pub fn step(&mut self, i: usize, n_ops: usize, op: Op, tag: u32, full_every_step: bool, n_names: usize, o: &mut SeqObs) -> Option<Fail> {
+        let was_dup = matches!(op, Op::Add { n, .. } if self.m.find(n).is_some());
+        let missing = matches!(op, Op::Remove { n } | Op::Enable { n, .. } if self.m.find(n).is_none());
+        let res = exec(&self.kb, op, tag);
         o.ops += 1;
         if let Res::Panic(c) = &res {
-            return (Some(("operation-panicked".into(), c.clone(), format!("step {} {} panicked", i, op.text()))), o);
+            return Some(("operation-panicked".into(), c.clone(), format!("step {} {} panicked", i, op.text())));
         }
-        let ok = m.apply(*op, tag, &res);
+        let ok = self.m.apply(op, tag, &res);
         if !ok {
             let (clause, cause) = if was_dup {
                 ("duplicate-rejected-without-effect", "duplicate-accepted")
@@ -672,63 +680,147 @@ pub fn run_seq_names(ops: &[Op], full_every_step: bool, n_names: usize) -> (Opti
                     _ => ("return-value", "unexpected-result"),
                 }
             };
-            return (Some((clause.into(), cause.into(), format!("step {} {} returned {}", i, op.text(), res.to_json()))), o);
+            return Some((clause.into(), cause.into(), format!("step {} {} returned {}", i, op.text(), res.to_json())));
         }
         // version
-        let v_after = match catch_unwind(AssertUnwindSafe(|| kb.version())) {
+        let v_after = match catch_unwind(AssertUnwindSafe(|| self.kb.version())) {
             Ok(v) => v,
-            Err(p) => return (Some(("operation-panicked".into(), panic_class(p), "version() panicked".into())), o),
+            Err(p) => return Some(("operation-panicked".into(), panic_class(p), "version() panicked".into())),
         };
         o.reads += 1;
-        let succeeded = m.growth > 0;
+        let succeeded = self.m.growth > 0;
         if was_dup {
             o.rejected_duplicates += 1;
-            if v_after != v_before {
-                return (Some((
+            if v_after != self.v_before {
+                return Some((
                     "duplicate-rejected-without-effect".into(),
                     "version-changed".into(),
-                    format!("step {} {} was rejected but the version went {} -> {}", i, op.text(), v_before, v_after),
-                )), o);
+                    format!("step {} {} was rejected but the version went {} -> {}", i, op.text(), self.v_before, v_after),
+                ));
             }
         } else if succeeded {
             o.ok_changes += 1;
-            if v_after <= v_before {
-                return (Some((
+            if v_after <= self.v_before {
+                return Some((
                     "version".into(),
-                    if v_after == v_before { "unchanged-after-successful-change" } else { "decreased" }.into(),
-                    format!("step {} {} succeeded but the version went {} -> {}", i, op.text(), v_before, v_after),
-                )), o);
+                    if v_after == self.v_before { "unchanged-after-successful-change" } else { "decreased" }.into(),
+                    format!("step {} {} succeeded but the version went {} -> {}", i, op.text(), self.v_before, v_after),
+                ));
             }
         } else if missing {
             o.missing_name_ops += 1;
-            if v_after < v_before {
-                return (Some((
+            if v_after < self.v_before {
+                return Some((
                     "version".into(),
                     "decreased".into(),
-                    format!("step {} {} (missing name): version went {} -> {}", i, op.text(), v_before, v_after),
-                )), o);
+                    format!("step {} {} (missing name): version went {} -> {}", i, op.text(), self.v_before, v_after),
+                ));
             }
-            if v_after != v_before {
+            if v_after != self.v_before {
                 o.version_moved_on_missing_name_op += 1;
             }
         }
-        m.version_seen(v_after);
-        v_before = v_after;
-        if matches!(op, Op::Remove { .. }) && succeeded && !m.rules.is_empty() {
+        self.m.version_seen(v_after);
+        self.v_before = v_after;
+        if matches!(op, Op::Remove { .. }) && succeeded && !self.m.rules.is_empty() {
             o.removals_with_rules_left += 1;
         }
-        o.max_rules = o.max_rules.max(m.rules.len());
-        if m.rules.windows(2).any(|w| w[0].s == w[1].s) {
+        o.max_rules = o.max_rules.max(self.m.rules.len());
+        if self.m.rules.windows(2).any(|w| w[0].s == w[1].s) {
             o.salience_ties += 1;
         }
-        if full_every_step || i + 1 == ops.len() {
-            if let Some((clause, cause, detail)) = observe_all(&kb, &m, n_names, &mut o.reads) {
+        if full_every_step || i + 1 == n_ops {
+            if let Some((clause, cause, detail)) = observe_all(&self.kb, &self.m, n_names, &mut o.reads) {
                 let (clause, cause) = if was_dup && clause != "operation-panicked" {
                     ("duplicate-rejected-without-effect".to_string(), format!("state-changed:{}:{}", clause, cause))
                 } else {
                     (clause, cause)
                 };
-                return (Some((clause, cause, format!("after step {} {}: {}", i, op.text(), detail))), o);
+                return Some((clause, cause, format!("after step {} {}: {}", i, op.text(), detail)));
+            }
+        }
+        None
+    }
+}
+
+pub fn run_seq_names(ops: &[Op], full_every_step: bool, n_names: usize) -> (Option<Fail>, SeqObs) {
+    let mut inst = Inst::new(KnowledgeBase::new("c15"));
+    let mut o = SeqObs::default();
+    for (i, op) in ops.iter().enumerate() {
+        if let Some(f) = inst.step(i, ops.len(), *op, i as u32 + 1, full_every_step, n_names, &mut o) {
+            return (Some(f), o);
+        }
+    }
+    (None, o)
+}
+
+/// A step of a history over several knowledge bases: an operation on instance `k`, or
+/// "instance k is cloned" (the clone becomes the next instance).
+#[derive(Clone, Copy, Debug, PartialEq, Eq, Hash)]
+pub enum IStep {
+    Do(u8, Op),
+    Clone(u8),
+}
+
+impl IStep {
+    pub fn text(&self) -> String {
+        match self {
+            IStep::Do(k, op) => format!("kb{}:{}", k, op.text()),
+            IStep::Clone(k) => format!("kb{}:clone", k),
+        }
+    }
+    pub fn parse(t: &str) -> Option<IStep> {
+        let (k, rest) = t.split_once(':')?;
+        let k: u8 = k.strip_prefix("kb")?.parse().ok()?;
+        if rest == "clone" {
+            Some(IStep::Clone(k))
+        } else {
+            Some(IStep::Do(k, Op::parse(rest)?))
+        }
+    }
+}
+
+/// Histories over a knowledge base AND its clones. Reading: `clone()` gives another knowledge
+/// base that holds the rules the original lists at that moment (same order, same rules); from
+/// then on each of the two follows its own operations only. After every step every view of EVERY
+/// instance is compared with that instance's model. The clone's version is taken as observed.
+pub fn run_instances(steps: &[IStep], n_names: usize) -> (Option<Fail>, SeqObs) {
+    let mut insts: Vec<Inst> = vec![Inst::new(KnowledgeBase::new("c15"))];
+    let mut o = SeqObs::default();
+    for (i, st) in steps.iter().enumerate() {
+        match *st {
+            IStep::Clone(k) => {
+                let Some(src) = insts.get(k as usize) else { continue };
+                let kb2 = match catch_unwind(AssertUnwindSafe(|| src.kb.clone())) {
+                    Ok(k) => k,
+                    Err(p) => return (Some(("operation-panicked".into(), panic_class(p), format!("step {} clone panicked", i))), o),
+                };
+                let mut ni = Inst::new(kb2);
+                ni.m.rules = src.m.rules.clone();
+                insts.push(ni);
+            }
+            IStep::Do(k, op) => {
+                let Some(inst) = insts.get_mut(k as usize) else { continue };
+                if let Some((cl, ca, de)) = inst.step(i, steps.len(), op, i as u32 + 1, false, n_names, &mut o) {
+                    return (Some((cl, ca, format!("kb{}: {}", k, de))), o);
+                }
+            }
+        }
+        // every instance, every view
+        let acted = match *st {
+            IStep::Do(k, _) => k as usize,
+            IStep::Clone(_) => insts.len() - 1,
+        };
+        for (k, inst) in insts.iter().enumerate() {
+            if let Some((clause, cause, detail)) = observe_all(&inst.kb, &inst.m, n_names, &mut o.reads) {
+                let (clause, cause) = if k != acted && clause != "operation-panicked" {
+                    ("instances-independent".to_string(), format!("changed-by-an-operation-on-another-instance:{}:{}", clause, cause))
+                } else if matches!(st, IStep::Clone(_)) && clause != "operation-panicked" {
+                    ("clone-holds-the-listed-rules".to_string(), format!("{}:{}", clause, cause))
+                } else {
+                    (clause, cause)
+                };
+                return (Some((clause, cause, format!("after step {} {}: kb{}: {}", i, st.text(), k, detail))), o);
             }
         }
     }
